@@ -83,7 +83,10 @@ func runC39(c *Ctx) {
 				}
 				return true
 			})
-			okLoop := loop != nil && loop.Cond == nil
+			// an unconditional loop, or one whose condition is itself part of the re-test
+			// (`for !closed && empty() { ...; Wait() }`): either way control returns to the
+			// tests after every wake-up
+			okLoop := loop != nil
 			// Wait is the last statement of the loop body: control returns to the tests
 			if okLoop {
 				last := loop.Body.List[len(loop.Body.List)-1]
@@ -96,6 +99,9 @@ func runC39(c *Ctx) {
 				// the conditions evaluated before the Wait: if / else-if chains and the cases
 				// of tagless switches among the statements of the loop body
 				var conds []ast.Expr
+				if loop.Cond != nil {
+					conds = append(conds, loop.Cond)
+				}
 				for _, st := range loop.Body.List {
 					switch x := st.(type) {
 					case *ast.IfStmt:
@@ -606,11 +612,28 @@ func runC41(c *Ctx) {
 					return nil, "unrecognised init statement"
 				}
 				a := atomOf(x.Cond, rechecked)
+				negated := false
+				if a == "" {
+					// the same tests written the other way round: `!c`, `x != directionIncoming`
+					inner := ast.Unparen(x.Cond)
+					if u, ok := inner.(*ast.UnaryExpr); ok && u.Op == token.NOT {
+						a, negated = atomOf(u.X, rechecked), true
+					} else if be, ok := inner.(*ast.BinaryExpr); ok && be.Op == token.NEQ {
+						a, negated = atomOf(&ast.BinaryExpr{X: be.X, Op: token.EQL, Y: be.Y}, rechecked), true
+					}
+				}
 				if a == "" {
 					return nil, "unrecognised condition " + types_ExprString(x.Cond)
 				}
-				if val(a, v) {
-					return eval(x.Body.List, v, rechecked, path+"/"+a)
+				if val(a, v) != negated {
+					tag := a
+					if negated {
+						tag = "!" + a
+					}
+					return eval(x.Body.List, v, rechecked, path+"/"+tag)
+				}
+				if negated {
+					a = "!" + a
 				}
 				if x.Else != nil {
 					if eb, ok := x.Else.(*ast.BlockStmt); ok {
@@ -693,63 +716,152 @@ func runC41(c *Ctx) {
 	c.Floor("decision leaves", nleaf, 12)
 	// announce function
 	type ann struct{ state, dir string }
-	announce := func(cached, cacheIn, dirIn bool) (ann, string) {
-		// find the if/else on `cached` before the decision switch that assigns CacheState/CacheDirection
-		var res ann
-		why := "announce block not found"
-		for _, st := range rc.Body.List {
-			ifs, ok := st.(*ast.IfStmt)
-			if !ok || atomOf(ifs.Cond, false) != "cached" || ifs.Else == nil {
-				continue
+	// the send that announces the cache status: the first rpc.Send after the first cache load
+	var announceSend *ast.CallExpr
+	{
+		var firstLoad token.Pos
+		for _, call := range rc.Calls(false, func(call *ast.CallExpr) bool {
+			return strings.HasSuffix(rc.CallKey(call), ".Load") && strings.HasSuffix(rc.Prov(call.Fun.(*ast.SelectorExpr).X), ".cachedConnections")
+		}) {
+			if !firstLoad.IsValid() || call.Pos() < firstLoad {
+				firstLoad = call.Pos()
 			}
-			why = ""
-			var walk func(stmts []ast.Stmt)
-			walk = func(stmts []ast.Stmt) {
-				for _, s := range stmts {
-					switch x := s.(type) {
-					case *ast.AssignStmt:
-						lhs := rc.Prov(x.Lhs[0])
-						nm := constName(rc, x.Rhs[0])
-						if nm == "" {
-							if n2, w2 := announceFromLiteral(rc, x.Rhs[0], cacheIn, dirIn); n2 != "" || w2 != "" {
-								nm = n2
-								if w2 != "" {
-									why = w2
+		}
+		for _, call := range rc.CallsTo(false, "spec/rpc.Send") {
+			if firstLoad.IsValid() && call.Pos() > firstLoad && (announceSend == nil || call.Pos() < announceSend.Pos()) {
+				announceSend = call
+			}
+		}
+	}
+	announce := func(cached, cacheIn, dirIn bool) (ann, string) {
+		// The statements from the cache load to the send of the negotiation message are
+		// interpreted under the valuation: conditions over `cached`, the cached connection's
+		// direction and this connection's direction (directly or through a local that holds
+		// one of the two) are evaluated; the last values given to CacheState and
+		// CacheDirection are what is announced. Nested if/else, default-then-override and a
+		// local "direction to announce" are alike.
+		var res ann
+		why := ""
+		locals := map[*types.Var]bool{}
+		evalDir := func(e ast.Expr) (bool, bool) {
+			pv := rc.Prov(e)
+			if v := rc.varOf(e); v != nil {
+				if b, ok := locals[v]; ok {
+					return b, true
+				}
+			}
+			switch {
+			case pv == "param#3":
+				return dirIn, true
+			case strings.HasSuffix(pv, ".cachedConnections.Load()#0.direction"):
+				return cacheIn, true
+			}
+			return false, false
+		}
+		var cond func(e ast.Expr) (bool, bool)
+		cond = func(e ast.Expr) (bool, bool) {
+			e = ast.Unparen(e)
+			switch x := e.(type) {
+			case *ast.Ident:
+				if strings.HasSuffix(rc.Prov(x), ".cachedConnections.Load()#1") {
+					return cached, true
+				}
+			case *ast.UnaryExpr:
+				if x.Op == token.NOT {
+					v, ok := cond(x.X)
+					return !v, ok
+				}
+			case *ast.BinaryExpr:
+				if (x.Op == token.EQL || x.Op == token.NEQ) && constName(rc, x.Y) == "directionIncoming" {
+					if v, ok := evalDir(x.X); ok {
+						return v == (x.Op == token.EQL), true
+					}
+				}
+			}
+			return false, false
+		}
+		touches := func(n ast.Node) bool {
+			t := false
+			ast.Inspect(n, func(m ast.Node) bool {
+				if as, ok := m.(*ast.AssignStmt); ok {
+					for _, l := range as.Lhs {
+						pv := rc.Prov(l)
+						if strings.HasSuffix(pv, ".CacheState") || strings.HasSuffix(pv, ".CacheDirection") {
+							t = true
+						}
+						if v := rc.varOf(l); v != nil {
+							if _, ok := locals[v]; ok {
+								t = true
+							}
+						}
+					}
+				}
+				return !t
+			})
+			return t
+		}
+		var run func(stmts []ast.Stmt) bool // true = reached the send
+		run = func(stmts []ast.Stmt) bool {
+			for _, st := range stmts {
+				if announceSend != nil && containsNode(st, announceSend) {
+					return true
+				}
+				switch x := st.(type) {
+				case *ast.AssignStmt:
+					if len(x.Lhs) != len(x.Rhs) {
+						continue
+					}
+					for i, l := range x.Lhs {
+						lhs := rc.Prov(l)
+						switch {
+						case strings.HasSuffix(lhs, ".CacheState"):
+							res.state = map[string]string{"Connection_CACHED": "CACHED", "Connection_FRESH": "FRESH"}[constName(rc, x.Rhs[i])]
+						case strings.HasSuffix(lhs, ".CacheDirection"):
+							nm := constName(rc, x.Rhs[i])
+							if nm == "" {
+								if n2, w2 := announceFromLiteral(rc, x.Rhs[i], cacheIn, dirIn); n2 != "" || w2 != "" {
+									nm = n2
+									if w2 != "" {
+										why = w2
+									}
+								}
+							}
+							res.dir = map[string]string{"Connection_INCOMING": "IN", "Connection_OUTGOING": "OUT"}[nm]
+						default:
+							if v := rc.varOf(l); v != nil && strings.HasSuffix(v.Type().String(), "overlay.direction") {
+								if b, ok := evalDir(x.Rhs[i]); ok {
+									locals[v] = b
 								}
 							}
 						}
-						if strings.HasSuffix(lhs, ".CacheState") {
-							res.state = map[string]string{"Connection_CACHED": "CACHED", "Connection_FRESH": "FRESH"}[nm]
-						}
-						if strings.HasSuffix(lhs, ".CacheDirection") {
-							res.dir = map[string]string{"Connection_INCOMING": "IN", "Connection_OUTGOING": "OUT"}[nm]
-						}
-					case *ast.IfStmt:
-						a := atomOf(x.Cond, false)
-						b := false
-						switch a {
-						case "cacheIn":
-							b = cacheIn
-						case "dirIn":
-							b = dirIn
-						case "cached":
-							b = cached
-						default:
+					}
+				case *ast.IfStmt:
+					b, ok := cond(x.Cond)
+					if !ok {
+						if touches(x) {
 							why = "unrecognised condition in the announce block: " + types_ExprString(x.Cond)
 						}
-						if b {
-							walk(x.Body.List)
-						} else if eb, ok := x.Else.(*ast.BlockStmt); ok {
-							walk(eb.List)
+						continue
+					}
+					if b {
+						if run(x.Body.List) {
+							return true
+						}
+					} else if eb, ok := x.Else.(*ast.BlockStmt); ok {
+						if run(eb.List) {
+							return true
+						}
+					} else if ei, ok := x.Else.(*ast.IfStmt); ok {
+						if run([]ast.Stmt{ei}) {
+							return true
 						}
 					}
 				}
 			}
-			if cached {
-				walk(ifs.Body.List)
-			} else {
-				walk(ifs.Else.(*ast.BlockStmt).List)
-			}
+			return false
+		}
+		if !run(rc.Body.List) {
+			why = "the send of the negotiation message was not reached"
 		}
 		return res, why
 	}
